@@ -176,4 +176,51 @@ example :
                                  dstAddr := ⟨192, 168, 1, 1⟩, dstPort := 443 } } := by
   decide
 
+/-! ## Audit addition: the decomposition in `accept_iff` is unique -/
+
+/-- **Uniqueness of the decomposition.** An input determines the command, transport, address
+value, trailing section and trailer of `accept_iff` (family from byte 13, section length from
+bytes 14-15): two encodings-with-trailer that are equal as byte strings have equal components. -/
+theorem decomposition_unique {c c' : Command} {t t' : Transport} {a a' : Addresses}
+    {r r' tr tr' : B}
+    (h : encode c t a r ++ tr = encode c' t' a' r' ++ tr')
+    (hl : (addrBytes a).length + r.length ≤ 65535)
+    (hl' : (addrBytes a').length + r'.length ≤ 65535) :
+    c = c' ∧ t = t' ∧ a = a' ∧ r = r' ∧ tr = tr' := by
+  have p1 : V2.parse (encode c t a r ++ tr) = .ok (encHeader c t a r) :=
+    (accept_iff _ _).mpr ⟨c, t, a, r, tr, hl, rfl, rfl⟩
+  have p2 : V2.parse (encode c t a r ++ tr) = .ok (encHeader c' t' a' r') :=
+    (accept_iff _ _).mpr ⟨c', t', a', r', tr', hl', h, rfl⟩
+  rw [p1] at p2
+  have heq : encHeader c t a r = encHeader c' t' a' r' := by
+    simpa only [Except.ok.injEq] using p2
+  have hc : c = c' := congrArg Header.command heq
+  have ht : t = t' := congrArg Header.protocol heq
+  have ha : a = a' := congrArg Header.addresses heq
+  subst hc ht ha
+  have hr : r = r' := by
+    have h1 := (views_of_encode c t a r).2.1
+    have h2 := (views_of_encode c t a r').2.1
+    rw [heq, h2] at h1
+    exact (List.append_cancel_left h1).symm
+  subst hr
+  exact ⟨rfl, rfl, rfl, rfl, List.append_cancel_left h⟩
+
+/-- Non-vacuity / use: the decomposition of a concrete input is the one read off the bytes. -/
+example {c : Command} {t : Transport} {a : Addresses} {r tr : B}
+    (h : encode c t a r ++ tr = encode .proxy .stream .unspec [4, 0, 1, 42] ++ [0x50])
+    (hl : (addrBytes a).length + r.length ≤ 65535) :
+    c = .proxy ∧ t = .stream ∧ a = .unspec ∧ r = [4, 0, 1, 42] ∧ tr = [0x50] :=
+  decomposition_unique h hl (by decide)
+
+/-- The length bounds are needed: the 16-bit length field wraps. A 65536-byte section encodes
+like an empty one followed by a 65536-byte trailer. -/
+example (big : B) (hb : big.length = 65536) :
+    encode .loc .unspec .unspec big ++ [] = encode .loc .unspec .unspec [] ++ big ∧ big ≠ [] := by
+  constructor
+  · have e : u16be ((addrBytes .unspec).length + big.length) = u16be ((addrBytes .unspec).length + 0) := by
+      rw [hb]; decide
+    simp only [encode, e, List.length_nil, List.append_nil]
+  · intro h; rw [h] at hb; cases hb
+
 end C02
